@@ -9,6 +9,7 @@ Correspondence of lean/LimnoriaModel/C06/Model.lean with the real funnels:
 import json, os, signal, sys, time
 from vlib import wire, rng, leanbuild, verdict, bot, VERIF
 from vlib.verdict import Case
+import c11
 
 PROPERTY = 'C06'
 MANIFEST = {
@@ -24,7 +25,7 @@ TRUSTED = ['Lean 4.33.0 kernel; axioms ⊆ {propext, Classical.choice, Quot.soun
            'harness/c06.py generators + canonicalisation; harness/plugins/VtOut',
            'parameter: repr(s) contains no CR/LF/NUL (instantiated with the real repr, contract checked on every use)',
            'LimnoriaModel.C05.Model (IrcMsg.__str__, tag escaping) as tied to src/ircmsgs.py by check C05']
-RULE = ('(A) 6 configuration bits x optional notice/private/prefixNick/to/action/error/stripCtcp x texts over a hostile alphabet (CR LF NUL \\x01 mIRC codes, '
+RULE = ('observation point of (B)(C)(E): the bytes the real SocketDriver writes to a fake socket after the real Irc.takeMsg. (A) 6 configuration bits x optional notice/private/prefixNick/to/action/error/stripCtcp x texts over a hostile alphabet (CR LF NUL \\x01 mIRC codes, '
         '2/3/4-byte characters, empty, long) x channel/private origin; (B) prefix/command/args/tags/label over the same alphabet, lengths up to 900 bytes, '
         'cuts falling inside multi-byte characters; (C) every command of every loaded plugin x hostile argument patterns x reply configurations x '
         'channel/private; (D) random (n, text). Non-trivial = an assertion, a repr, a truncation, a tag, a multi-byte cut or a non-default flag; distinct = distinct input.')
@@ -41,6 +42,52 @@ def py_bytes(s):
 def encodable(s):
     try: s.encode('utf-8'); return True
     except UnicodeEncodeError: return False
+
+def wire_check(data):
+    """the property on the bytes the driver wrote: every line ends with CR LF, holds no other CR / LF / NUL, and its
+    non-tag part is at most 512 bytes"""
+    if not data: return True, ''
+    if not data.endswith(b'\r\n'):
+        return False, 'the bytes written do not end with CR LF: %r' % data[-40:]
+    for seg in data[:-2].split(b'\r\n'):
+        if b'\r' in seg or b'\n' in seg or b'\0' in seg:
+            return False, 'a line on the wire holds CR/LF/NUL inside: %r' % seg[:200]
+        nt = seg.split(b' ', 1)[1] if seg[:1] == b'@' and b' ' in seg else seg
+        if len(nt) + 2 > 512:
+            return False, 'a line on the wire has a non-tag part of %d bytes: %r…' % (len(nt) + 2, seg[:80])
+    return True, ''
+
+class Rig6(c11.Rig):
+    """the live bot's Irc behind the real SocketDriver over a fake socket: what is observed is what the driver writes"""
+    def __init__(self, b):
+        c11.Rig.__init__(self)
+        import logging
+        self.irc = b.irc
+        self.d, _, _, self.st = self.fresh(b.irc)
+        b.irc.driver = self.d
+        self.taken = []
+        orig = b.irc.takeMsg
+        def take():
+            m = orig()
+            if m is not None: self.taken.append(m)
+            return m
+        b.irc.takeMsg = take
+        for _ in range(3): self.drivers.run()
+    def flush(self):
+        """run the driver loop until the Irc has nothing more to send; returns (bytes written, messages taken)"""
+        n0 = len(self.sock.sent); self.taken = []
+        for _ in range(4):
+            k = len(self.sock.sent)
+            self.drivers.run()
+            if len(self.sock.sent) == k and not self.irc.fastqueue and not self.irc.queue: break
+        return self.sock.sent[n0:], list(self.taken)
+    def set_caps(self, caps):
+        ack = self.irc.state.capabilities_ack
+        for c in ('labeled-response', 'echo-message', 'message-tags'):
+            ack.discard(c)
+        for c in caps: ack.add(c)
+
+CAPSETS = [(), (), ('labeled-response',), ('labeled-response', 'echo-message', 'message-tags'), ('message-tags',)]
 
 ALPHA = ['a', 'b', 'Z', '0', ' ', ' ', ':', '#', '\r', '\n', '\0', '\x01', '\x02', '\x03', '04', ',', 'é', 'ß', '中', '€', '😀', '𝔘', '\t', '\\', '"', "'", '\x7f', '\x85', ' ', '﻿']
 def gen_text(r, maxlen=14, hostile=0.5):
@@ -118,22 +165,24 @@ def a_cases(b, r, n):
         for v, x in zip(cfgvars, saved): v.setValue(x)
     return cases, lines
 
-# ---------------------------------------------------------------- (B) constructors + truncation
-def line_of(b, m, label):
-    """what Irc.takeMsg does to the serialisation: optional label tag, _truncateMsg, str()"""
-    if label is not None:
-        m.server_tags['label'] = label
-        m._len = m._str = None
-    try:
-        b.irc._truncateMsg(m)
-    except ValueError:
-        return 'valueerror', None
-    s = str(m)
-    return 'line\t%s\t%s\t%d' % (wire.enc(s), 'wf' if py_wf(s) else 'notwf', py_bytes(s)), s
-
+# ---------------------------------------------------------------- (B) constructors + takeMsg + driver
 def clean(x): return not any(c in BAD for c in x)
 
-def b_cases(b, r, n):
+def through_driver(rig, m, caps):
+    """sendMsg(m) on the live Irc, let the real driver take and write it; returns (canonical output, bytes, label added)"""
+    rig.set_caps(caps)
+    rig.irc.sendMsg(m)
+    data, taken = rig.flush()
+    rig.set_caps(())
+    if not taken:
+        return 'valueerror', data, None
+    s = str(taken[0])
+    lab = None
+    if 'labeled-response' in caps:
+        lab = taken[0].server_tags.get('label')
+    return None, data, lab
+
+def b_cases(b, rig, r, n):
     im = b.ircmsgs
     cases = []; lines = []
     for i in range(n):
@@ -148,41 +197,49 @@ def b_cases(b, r, n):
         tags = {}
         for _ in range(r.choice([0, 0, 0, 1, 2])):
             tags[r.choice(['a', '+b', 'msgid', 'k y', 'k\n', 'label'])] = r.choice([None, '', 'v', 'a b;c\\', 'x\r\ny', '\0', 'é'])
-        label = r.choice([None, None, 'lbl1', 'a b'])
-        kind = 'B-ctor'
+        caps = r.choice(CAPSETS)
         try:
             m = im.IrcMsg(prefix=pfx, command=cmd, args=tuple(args), server_tags=dict(tags))
-            out, s = line_of(b, m, label)
         except AssertionError:
-            out, s = 'assert', None
+            m = None
+        label = None; data = b''
+        if m is None:
+            out = 'assert'
+        else:
+            out, data, label = through_driver(rig, m, caps)
+            if out is None:
+                out = 'line\t%s' % data.hex()
         ok = True; msg = ''
-        header_clean = clean(pfx) and clean(cmd) and all(clean(k) for k in tags) and all('\0' not in (v or '') for v in tags.values()) \
-            and (label is None or '\0' not in label)
-        if s is not None and header_clean:
-            if not py_wf(s):
-                ok = False; msg = 'IrcMsg(prefix=%r, command=%r, args=%r, tags=%r) serialises to %r' % (pfx, cmd, args, tags, s[:200])
-            elif py_bytes(s) > 512:
-                ok = False; msg = 'after _truncateMsg the non-tag part has %d bytes: %r…' % (py_bytes(s), s[:80])
-            elif not encodable(s):
-                ok = False; msg = 'not encodable'
+        header_clean = clean(pfx) and clean(cmd) and all(clean(k) for k in tags) and all('\0' not in (v or '') for v in tags.values())
+        if m is not None and header_clean:
+            ok, msg = wire_check(data)
+            if not ok:
+                msg = 'IrcMsg(prefix=%r, command=%r, args=%r…, tags=%r) with capabilities %r: %s' % (pfx, cmd, [a[:30] for a in args], tags, caps, msg)
         t = []
         if out == 'assert': t.append('assert')
         if tags or label: t.append('tags')
-        if s is not None and py_bytes(s) >= 500: t.append('near-limit')
-        if s is not None and len(py_nontag(str(s))) != len(py_nontag(s).encode()): t.append('multibyte')
-        if s is not None and sum(len(a) for a in args) > 400: t.append('truncation-range')
-        cases.append(Case({'B': True, 'prefix': pfx, 'command': cmd, 'args': args, 'tags': tags, 'label': label}, impl=out,
-                          oracle_ok=ok, oracle_msg=msg, kind=kind, tags=tuple(t)))
+        if label: t.append('label-added')
+        if caps: t.append('caps-' + '+'.join(caps))
+        if len(data) >= 500: t.append('near-limit')
+        if any(ord(c) > 127 for a in args for c in a): t.append('multibyte')
+        cases.append(Case({'B': True, 'prefix': pfx, 'command': cmd, 'args': args, 'tags': tags, 'caps': list(caps), 'label': label}, impl=out,
+                          oracle_ok=ok, oracle_msg=msg, kind='B-ctor', tags=tuple(t)))
         lines.append('\t'.join(['ctor', wire.enc(pfx), wire.enc(cmd), wire.enc_list(args), enc_tags(tags), wire.enc_opt(label)]))
         if i % 6 == 0:
             # the msg= branch: no assertion
             base = im.IrcMsg(prefix='', command='PRIVMSG', args=('#c', 'ok'))
             a2 = [r.choice(['#c', 'n']), gen_text(r, 8)]
             m2 = im.IrcMsg(msg=base, args=tuple(a2))
-            out2, s2 = line_of(b, m2, None)
-            cases.append(Case({'B': 'copy', 'args': a2}, impl=out2, kind='B-copy', tags=('msg=-branch',) + (('not-wf',) if s2 and not py_wf(s2) else ())))
+            out2, data2, _ = through_driver(rig, m2, ())
+            if out2 is None: out2 = 'line\t%s' % data2.hex()
+            cases.append(Case({'B': 'copy', 'args': a2}, impl=out2, kind='B-copy', tags=('msg=-branch',) + (('not-wf',) if not wire_check(data2)[0] else ())))
             lines.append('\t'.join(['copy', wire.enc(''), wire.enc('PRIVMSG'), wire.enc_list(['#c', 'ok']), '-', wire.enc(''), wire.enc(''), wire.enc_list(a2)]))
     return cases, lines
+
+def canon_line(o):
+    """model answer `line <hex> <wf> <bytes>` -> `line <hex>` (the wire carries exactly the UTF-8 of the line)"""
+    f = o.split('\t')
+    return 'line\t' + f[1] if f[0] == 'line' else o
 
 # ---------------------------------------------------------------- (D) the cut
 def d_cases(r, n):
@@ -199,7 +256,7 @@ def d_cases(r, n):
 SKIP_PLUGINS = {'Web', 'Internet', 'RSS', 'Google', 'ShrinkUrl', 'Unix', 'Fediverse', 'GPG', 'Geography', 'DDG', 'Dict', 'Debug', 'NickAuth',
                 'Aka', 'MessageParser', 'PluginDownloader', 'Poll', 'SedRegex', 'LogToIrc', 'Scheduler', 'Network', 'Protector', 'AutoMode',
                 'ChannelLogger', 'Relay', 'Services', 'Nickometer', 'Status', 'Time', 'Limiter', 'Autocomplete', 'Owner'}
-ARG_PATTERNS = ['"a\\r\\nQUIT :x"', '"\\n"', '"\\x00"', '"\\x01ACTION x\\x01"', '\x0304red\x03 \x02b\x02', 'é' * 300, '😀' * 140 + ' tail',
+ARG_PATTERNS = ['"' + '\\ud800' * 120 + '"', '"' + 'a' * 470 + '"', 'é' * 250, '"a\\r\\nQUIT :x"', '"\\n"', '"\\x00"', '"\\x01ACTION x\\x01"', '\x0304red\x03 \x02b\x02', 'é' * 300, '😀' * 140 + ' tail',
                 '#c "x\\ny"', 'foo "\\r"', '"\\ud800"', 'a ' * 120, '"\\x0d\\x0a" b', '']
 CONFIGS = [{}, {'withNotice': True}, {'inPrivate': True}, {'withNickPrefix': False}, {'error.withNotice': True, 'error.inPrivate': True},
            {'withNoticeWhenPrivate': False}]
@@ -218,7 +275,49 @@ def set_cfg(conf, cfg):
 def msg_fields_line(m):
     return '\t'.join(['ctor', wire.enc(m.prefix), wire.enc(m.command), wire.enc_list(m.args), enc_tags(m.server_tags), '~'])
 
-def c_cases(b, r, budget_s, max_inv):
+def enc_replace(x): return x.encode('utf-8', 'replace')
+
+def invoke(b, rig, text, private, prefix='foo!bar@baz'):
+    """say `text` to the bot, let the real driver write the answers; returns (bytes, messages taken) or None on a hang"""
+    try:
+        signal.alarm(3)
+        try:
+            im = b.ircmsgs.privmsg('test' if private else '#chan', ('' if private else '@') + text, prefix=prefix)
+            rig.irc.feedMsg(im)
+            return rig.flush()
+        finally:
+            signal.alarm(0)
+    except Alarm:
+        return None
+    except UnicodeEncodeError:
+        return None
+
+def message_cases(text, cfg, private, caps, data, taken, cases, lines, kind='C-sweep'):
+    # per invocation: the property on the bytes of the wire, and "the wire is the encoding of what takeMsg returned"
+    ok, msg = wire_check(data)
+    if ok:
+        want = b''.join(enc_replace(str(m)) for m in taken)
+        if data != want:
+            ok = False; msg = 'the driver wrote %r… for messages whose encoding is %r…' % (data[:80], want[:80])
+    if not ok:
+        msg = '%r (capabilities %r, configuration %r) — %s' % (text[:160], caps, cfg, msg)
+    cases.append(Case({'C': True, 'text': text, 'cfg': cfg, 'private': private, 'caps': list(caps)}, impl=None, oracle_ok=ok, oracle_msg=msg,
+                      kind=kind, tags=('wire',) + (('caps-' + '+'.join(caps),) if caps else ())))
+    lines.append('cut\t0\t')
+    # per message: the model's line for its fields = what was written for it
+    for m in taken:
+        s = str(m)
+        comparable = encodable(s) and all(encodable(x) for x in m.args) and encodable(m.prefix)
+        t = ['cmd-' + m.command]
+        if cfg: t.append('cfg-' + '+'.join(sorted(cfg)))
+        if private: t.append('private')
+        if len(enc_replace(s)) >= 500: t.append('near-limit')
+        if 'label' in m.server_tags: t.append('label-added')
+        cases.append(Case({'C': 'msg', 'text': text, 'fields': [m.prefix, m.command, list(m.args), dict(m.server_tags)] if comparable else None},
+                          impl=('line\t' + enc_replace(s).hex()) if comparable else None, kind=kind, tags=tuple(t)))
+        lines.append(msg_fields_line(m) if comparable else 'cut\t0\t')
+
+def c_cases(b, rig, r, budget_s, max_inv):
     irc = b.irc
     cmds = []
     for cb in irc.callbacks:
@@ -235,6 +334,7 @@ def c_cases(b, r, budget_s, max_inv):
         plugin, c = cmds[inv % len(cmds)]
         arg = r.choice(ARG_PATTERNS)
         cfg = r.choice(CONFIGS)
+        caps = r.choice(CAPSETS)
         private = r.random() < 0.3
         if plugin == 'VtOut':
             fl = ''.join(r.sample('nNpPaxX', r.randint(0, 3)))
@@ -243,45 +343,58 @@ def c_cases(b, r, budget_s, max_inv):
         text = '%s %s %s' % (plugin, c, arg)
         inv += 1
         set_cfg(b.conf, cfg)
-        try:
-            signal.alarm(3)
-            try:
-                im = b.ircmsgs.privmsg('test' if private else '#chan', ('' if private else '@') + text, prefix='foo!bar@baz')
-                irc.feedMsg(im)
-                out = []
-                for _ in range(200):
-                    m = irc.takeMsg()
-                    if m is None: break
-                    out.append(m)
-            finally:
-                signal.alarm(0)
-        except Alarm:
-            continue
-        except UnicodeEncodeError:
+        rig.set_caps(caps)
+        res = invoke(b, rig, text, private)
+        rig.set_caps(())
+        if res is None:
             continue
         seen_cmd.add((plugin, c))
-        for m in out:
-            try:
-                s = str(m)
-            except Exception as e:
-                s = None
-            ok = True; msg = ''
-            if s is None:
-                ok = False; msg = 'str(msg) raised for a message returned by takeMsg()'
-            elif not py_wf(s):
-                ok = False; msg = '%r made the bot hand %r to the driver' % (text[:120], s[:200])
-            elif py_bytes(s) > 512:
-                ok = False; msg = '%r: non-tag part of %d bytes: %r…' % (text[:80], py_bytes(s), s[:60])
-            t = ['cmd-' + m.command]
-            if cfg: t.append('cfg-' + '+'.join(sorted(cfg)))
-            if private: t.append('private')
-            if s and py_bytes(s) >= 500: t.append('near-limit')
-            cases.append(Case({'C': True, 'text': text, 'cfg': cfg, 'private': private, 'fields': [m.prefix, m.command, list(m.args), dict(m.server_tags)]},
-                              impl='line\t%s\t%s\t%d' % (wire.enc(s), 'wf' if py_wf(s) else 'notwf', py_bytes(s)) if s is not None and encodable(s) else None,
-                              oracle_ok=ok, oracle_msg=msg, kind='C-sweep', tags=tuple(t)))
-            lines.append(msg_fields_line(m) if s is not None and encodable(s) and all(encodable(x) for x in m.args) else 'cut\t0\t')
+        message_cases(text, cfg, private, caps, res[0], res[1], cases, lines)
     set_cfg(b.conf, {})
     return cases, lines, {'commands_seen': len(seen_cmd), 'commands_total': len(cmds), 'invocations': inv}
+
+# ---------------------------------------------------------------- (E) the outFilter rewriters (msg= sites)
+SMUGGLE = 'x\nQUIT :smuggled'
+def e_cases(b, rig, r, per_filter):
+    """every filter command a channel op may install as outFilter x hostile texts, installed through the real command"""
+    cases = []; lines = []
+    filt = b.irc.getCallback('Filter')
+    if filt is None:
+        return cases, lines, {'outfilters': 0}
+    ircdb = b.ircdb
+    try:
+        ircdb.users.getUserId('op!u@h')
+    except KeyError:
+        u = ircdb.users.newUser(); u.name = 'vtop'; u.addHostmask('op!u@h'); u.addCapability('#chan,op'); ircdb.users.setUser(u)
+    texts = [SMUGGLE.encode().hex(), ''.join('{:08b}'.format(x) for x in b'a\nb'), '-..- .-.-.. --.- ..- .. -', 'plain text', 'é' * 200 + ' x', '\x0304c\x03',
+             '"' + SMUGGLE.replace('\n', '\\n') + '"', 'a' * 400, '0a0d00', '00001010']
+    signal.signal(signal.SIGALRM, _alarm)
+    n = 0
+    for cmd in list(filt._filterCommands):
+        res = invoke(b, rig, 'filter outfilter #chan %s' % cmd, False, prefix='op!u@h')
+        installed = bool(filt.outFilters.get('#chan'))
+        for _ in range(per_filter):
+            text = 'echo ' + r.choice(texts)
+            res = invoke(b, rig, text, False)
+            if res is None: continue
+            n += 1
+            message_cases('[outfilter %s] %s' % (cmd, text), {}, False, (), res[0], res[1], cases, lines, kind='E-outfilter')
+        invoke(b, rig, 'filter outfilter #chan', False, prefix='op!u@h')
+        filt.outFilters.pop('#chan', None)
+    # BadWords: the other rewriter that needs no network
+    bw = b.irc.getCallback('BadWords')
+    if bw is not None:
+        try:
+            b.conf.supybot.plugins.BadWords.words.setValue({'darn', 'é'})
+            for _ in range(per_filter * 3):
+                text = 'echo ' + r.choice(['darn it', 'DARN\x02 x', 'é' * 150, 'a darn ' * 60])
+                res = invoke(b, rig, text, False)
+                if res is None: continue
+                n += 1
+                message_cases('[badwords] ' + text, {}, False, (), res[0], res[1], cases, lines, kind='E-outfilter')
+        finally:
+            b.conf.supybot.plugins.BadWords.words.setValue(set())
+    return cases, lines, {'outfilter_invocations': n, 'filter_commands': len(filt._filterCommands)}
 
 # ---------------------------------------------------------------- run
 _bot = None
@@ -302,11 +415,22 @@ def get_bot(thorough):
         b._c06_loaded = True
     return b
 
-def explore(b, stream, na, nb, nd, budget_c, max_c):
+_rig = None
+def get_rig(b):
+    global _rig
+    if _rig is None:
+        _rig = Rig6(b)
+    return _rig
+
+def explore(b, stream, na, nb, nd, budget_c, max_c, per_filter):
     r = rng.make(stream)
-    groups = [a_cases(b, r, na), b_cases(b, r, nb), d_cases(r, nd)]
-    cc, cl, cstats = c_cases(b, r, budget_c, max_c)
-    groups.append((cc, cl))
+    rig = get_rig(b)
+    groups = [a_cases(b, r, na) + (None,), b_cases(b, rig, r, nb) + (canon_line,), d_cases(r, nd) + (None,)]
+    ec, el, estats = e_cases(b, rig, r, per_filter)
+    groups.append((ec, el, canon_line))
+    cc, cl, cstats = c_cases(b, rig, r, budget_c, max_c)
+    groups.append((cc, cl, canon_line))
+    cstats.update(estats)
     return groups, cstats
 
 def run(ctx):
@@ -316,21 +440,21 @@ def run(ctx):
     build = leanbuild.ensure(PROPERTY, THEOREMS, thorough=ctx.thorough, extractors=['Out', 'IrcMsgs'])
     b = get_bot(ctx.thorough)
     scale = 12 if ctx.thorough else 1
-    groups, cstats = explore(b, 'c06', 6000 * scale, 6000 * scale, 3000 * scale, 45 * scale, 9000 * scale)
+    groups, cstats = explore(b, 'c06', 6000 * scale, 5000 * scale, 3000 * scale, 40 * scale, 8000 * scale, 6 * scale)
     cases = []
-    for cs, ls in groups:
+    for cs, ls, canon in groups:
         if build.driver_ok:
             for c, o in zip(cs, wire.run_driver(PROPERTY, ls)):
                 if c.impl is not None:
-                    c.model = o
+                    c.model = canon(o) if canon else o
         cases += cs
     def search(disagreements, broken):
         os.environ['VERIF_SEED'] = str(ctx.seed + 7919)
         try:
-            g, _ = explore(b, 'c06-search', 8000, 8000, 100, 40, 5000)
+            g, _ = explore(b, 'c06-search', 8000, 6000, 100, 40, 5000, 10)
         finally:
             os.environ['VERIF_SEED'] = str(ctx.seed)
-        return [c for cs, _ in g for c in cs if c.oracle_ok is False]
+        return [c for cs, _, _ in g for c in cs if c.oracle_ok is False]
     return verdict.conclude(PROPERTY, ctx.tier, ctx.seed, build, cases, search=search, rule=RULE, trusted_base=TRUSTED,
                             assumptions=['Python asserts enabled', 'non-owner callers (Owner.ircquote / Debug.sendquote construct messages from raw strings by design)',
                                          'the 512-byte bound excludes the tag part (as in the property statement)',
@@ -346,12 +470,25 @@ def replay(ctx, path):
     inp = c['input']
     b = get_bot(False)
     if inp.get('C'):
-        set_cfg(b.conf, inp['cfg'])
-        out = bot.feed(b, 'foo!bar@baz', 'test' if inp['private'] else '#chan', ('' if inp['private'] else '@') + inp['text'])
-        bad = 0
-        for m in out:
-            s = str(m); print('  ->', repr(s)[:200], 'wf=%s bytes=%d' % (py_wf(s), py_bytes(s)))
-            bad += (not py_wf(s)) or py_bytes(s) > 512
-        return 1 if bad else 0
+        rig = get_rig(b)
+        set_cfg(b.conf, inp.get('cfg') or {})
+        rig.set_caps(inp.get('caps') or ())
+        text = inp['text']
+        if text.startswith('[outfilter '):
+            cmd, text = text[len('[outfilter '):].split('] ', 1)
+            print('(install the outFilter first: @filter outfilter #chan %s, as a #chan,op user)' % cmd)
+            ircdb = b.ircdb
+            try: ircdb.users.getUserId('op!u@h')
+            except KeyError:
+                u = ircdb.users.newUser(); u.name = 'vtop'; u.addHostmask('op!u@h'); u.addCapability('#chan,op'); ircdb.users.setUser(u)
+            signal.signal(signal.SIGALRM, _alarm)
+            invoke(b, rig, 'filter outfilter #chan %s' % cmd, False, prefix='op!u@h')
+        signal.signal(signal.SIGALRM, _alarm)
+        res = invoke(b, rig, text, inp.get('private', False))
+        data = res[0] if res else b''
+        print('  wire:', data[:400])
+        ok, msg = wire_check(data)
+        print('  property on the wire:', 'holds' if ok else 'FAILS — ' + msg)
+        return 0 if ok else 1
     print(json.dumps(inp)[:1000])
     return 0
